@@ -32,6 +32,8 @@ pub fn mk_mt(id: TableId, entry_size: u16, multipart: bool, capacity: u64, stack
 }
 pub fn free_stack_of(t: &ValueTable) -> Vec<u64> { t.free_entries.as_ref().map(|f| f.read().stack.clone()).unwrap_or_default() }
 
+pub fn is_multipart(t: &ValueTable) -> bool { t.multipart }
+pub fn entry_size_of(t: &ValueTable) -> usize { t.entry_size as usize }
 pub fn set_filled(t: &ValueTable, v: u64) { t.filled.store(v, Ordering::Relaxed); }
 pub fn set_last_removed(t: &ValueTable, v: u64) { t.last_removed.store(v, Ordering::Relaxed); }
 pub fn filled_of(t: &ValueTable) -> u64 { t.filled.load(Ordering::Relaxed) }
